@@ -24,7 +24,80 @@ type hShadow struct {
 // genH generates a handle history: a few files with contents, 1..3 handles per file with random
 // flags, then reads/writes/seeks/truncates; with mixNS also Remove/Rename of the paths and calls
 // after Close (C17).
+// genCoherence is a structured family inside genH: handle B first touches the file in a way that may
+// leave something remembered on the handle (size, position, nothing), another handle A (or the FS) then
+// changes the file's size, and B is observed again.  Every choice comes from r.
+func genCoherence(r *Rng, mixNS bool) []Op {
+	d0 := smallData(r)
+	if len(d0) < 3 {
+		d0 = []byte{11, 12, 13, 14, 15}
+	}
+	ops := []Op{{Kind: "writefile", P: "a", Data: d0, Perm: 0o644}}
+	flagB := []int{0, fRDWR, fRDWR | fAPPEND, fWRONLY, fWRONLY | fAPPEND}[r.Intn(5)]
+	ops = append(ops, Op{Kind: "open", P: "a", Flag: flagB, Perm: 0o644}) // handle 0 = B
+	ops = append(ops, Op{Kind: "open", P: "a", Flag: fRDWR, Perm: 0o644}) // handle 1 = A
+	const B, A = 0, 1
+	// what B does before the change
+	for i, k := 0, r.Range(0, 2); i < k; i++ {
+		switch r.Pick(4, 2, 2, 1, 1) {
+		case 0:
+			ops = append(ops, Op{Kind: "h:seek", H: B, Off: int64(r.Range(-2, 0)), Wh: 2})
+		case 1:
+			ops = append(ops, Op{Kind: "h:stat", H: B})
+		case 2:
+			ops = append(ops, Op{Kind: "h:seek", H: B, Off: int64(r.Range(0, 3)), Wh: 0})
+		case 3:
+			ops = append(ops, Op{Kind: "h:read", H: B, N: r.Range(1, 3)})
+		default:
+			ops = append(ops, Op{Kind: "h:readat", H: B, N: 2, Off: 1})
+		}
+	}
+	// the size change, through A or through the FS
+	for i, k := 0, r.Range(1, 2); i < k; i++ {
+		switch r.Pick(3, 2, 2, 2, 1) {
+		case 0:
+			ops = append(ops, Op{Kind: "h:seek", H: A, Off: 0, Wh: 2}, Op{Kind: "h:write", H: A, Data: smallData(r)})
+		case 1:
+			ops = append(ops, Op{Kind: "h:writeat", H: A, Data: smallData(r), Off: int64(len(d0) + r.Range(0, 6))})
+		case 2:
+			ops = append(ops, Op{Kind: "h:trunc", H: A, Off: int64(r.Range(0, len(d0)-1))})
+		case 3:
+			ops = append(ops, Op{Kind: "h:trunc", H: A, Off: int64(len(d0) + r.Range(1, 9))})
+		default:
+			if mixNS {
+				ops = append(ops, Op{Kind: "writefile", P: "a", Data: smallData(r), Perm: 0o644})
+			} else {
+				ops = append(ops, Op{Kind: "h:trunc", H: A, Off: 0})
+			}
+		}
+	}
+	// what B sees afterwards
+	for i, k := 0, r.Range(2, 5); i < k; i++ {
+		switch r.Pick(4, 2, 3, 2, 2, 2, 1) {
+		case 0:
+			ops = append(ops, Op{Kind: "h:seek", H: B, Off: int64(r.Range(-2, 0)), Wh: 2})
+		case 1:
+			ops = append(ops, Op{Kind: "h:stat", H: B})
+		case 2:
+			ops = append(ops, Op{Kind: "h:read", H: B, N: r.Range(1, 30)})
+		case 3:
+			ops = append(ops, Op{Kind: "h:readat", H: B, N: r.Range(1, 30), Off: int64(r.Range(0, 4))})
+		case 4:
+			ops = append(ops, Op{Kind: "h:write", H: B, Data: smallData(r)})
+		case 5:
+			ops = append(ops, Op{Kind: "h:seek", H: B, Off: 0, Wh: 1})
+		default:
+			ops = append(ops, Op{Kind: "h:stat", H: A})
+		}
+	}
+	ops = append(ops, Op{Kind: "h:seek", H: A, Off: 0, Wh: 0}, Op{Kind: "h:read", H: A, N: 64})
+	return ops
+}
+
 func genH(r *Rng, mixNS bool) []Op {
+	if r.Intn(4) == 0 {
+		return genCoherence(r, mixNS)
+	}
 	var ops []Op
 	files := []string{"a"}
 	ops = append(ops, Op{Kind: "writefile", P: "a", Data: smallData(r), Perm: 0o644})
